@@ -24,7 +24,7 @@ func init() {
 		Rule: "packages: a hand-built kitchen-sink spec (typed path/query/header parameters, arrays, JSON bodies of every kind, oneOf with/without discriminator, allOf, raw bodies, security of three kinds, explicit OPTIONS, base path), the repository's fixture specs that need no user package, and rapid-drawn compositions; every handler, authenticator, CORS / spec handler and a middleware installed; requests are rapid-structured near the declared shapes (lexemes of the declared types and hostile constants in path segments, query and header values; truncated / over-long / doubled-slash / base-path-near-miss paths; every method incl. unknown ones; bodies valid / truncated / deeply nested / wrong-typed / empty / garbage / huge; odd Content-Types), half of them serialised and re-read with http.ReadRequest; thorough adds native coverage-guided fuzzing of raw request bytes through http.ReadRequest; " +
 			"oracle inside the target: no panic in ServeHTTP or in Parse() (called by every stub), Parse() yields a value or an error, and exactly one WriteHeader per request; " +
 			"non-trivial = request that reaches a stub or fails in Parse(); distinct by (package, outcome class, operation, body kind, method matches)",
-		Assume:    []string{"requests are those net/http can deliver (http.ReadRequest / httptest.NewRequest; Body non-nil)", "all hooks installed (nil hooks are C11's axis)", "native fuzzing cannot be pinned to VERIF_SEED: the saved crasher is the reproducible unit"},
+		Assume:    []string{"requests are those net/http can deliver (http.ReadRequest / httptest.NewRequest; Body non-nil)", "three quarters of the requests go through an API with every hook installed, one quarter through the same API with every optional hook (CORS, spec file, not-found handler, authenticators, middlewares) left nil", "native fuzzing cannot be pinned to VERIF_SEED: the saved crasher is the reproducible unit"},
 		Main:      c14Main,
 		MinNonTrv: 300,
 	})
